@@ -11,7 +11,8 @@ def hexs(b):
 
 INT_EDGES = [0, 1, -1, 2, 127, 128, 255, 256, 32767, 32768, 65535, 65536, 2 ** 15 - 1, 2 ** 15, 2 ** 30,
              2 ** 31 - 1, 2 ** 31, -2 ** 31, -2 ** 31 - 1, 2 ** 32, 2 ** 45, 2 ** 63 - 1, 2 ** 63, -2 ** 63,
-             -2 ** 63 - 1, 2 ** 64, 10 ** 30, -10 ** 30, 2 ** 200 + 12345]
+             -2 ** 63 - 1, 2 ** 64, 10 ** 30, -10 ** 30, 2 ** 200 + 12345,
+             2 ** 481, 2 ** 495 - 1, 10 ** 200, -(3 ** 400), 2 ** 1000, 7 ** 777, 2 ** 975 + 1]      # 33 ... 67 marshal digits
 
 
 # integers of more than 4096 15-bit marshal digits (writers that work in blocks, hosts with an int->str digit limit);
